@@ -57,7 +57,10 @@ class TapeImageContentExtractor(TapeImageWorker):
                 targetPath = os.path.join(
                     targetDir, f"{desc.fileName}.{desc.fileExtension}"
                 )
-                if os.path.abspath(targetPath) == os.path.abspath(args.archive):
+                if os.path.abspath(targetPath) == os.path.abspath(args.archive) or (
+                    os.path.exists(targetPath)
+                    and os.path.samefile(targetPath, args.archive)
+                ):
                     # a file named like the archive, extracted beside it
                     raise ValueError(f"would.overwrite.the.archive:{targetPath}")
                 with open(targetPath, "wb") as f:
